@@ -272,6 +272,39 @@ def run_book(ctx, bi, far):
             place(own, f'=SUM({sp})', kind='SUM', ref=ref)
             place(own, f'=COUNT({sp})', kind='COUNT', ref=ref)
             place(own, None, kind='INDEX', ref=ref, sp=sp)
+        # a data-only sheet whose LAST rows hold nothing but zeros (0, 0.0) and blanks: those rows are rows of the sheet like any other -
+        # a zero is a value, COUNT counts it, MIN finds it, COUNTBLANK does not, and a whole column reaches down to it
+        tsi_ = len(sheets)
+        tail = {}
+        h_ = rng.randrange(2, 6)
+        for rr_ in range(1, h_ + 1):
+            for c in range(1, 4):
+                if rng.random() > 0.15:
+                    tail[(rr_, c)] = code(tsi_, rr_, c)
+        tail[(1, 1)] = code(tsi_, 1, 1)
+        nz = rng.randrange(1, 4)
+        for rr_ in range(h_ + 1, h_ + nz + 1):
+            for c in range(1, 4):
+                if rng.random() > 0.3:
+                    tail[(rr_, c)] = rng.choice([0, 0, 0.0])
+            tail[(rr_, rng.randrange(1, 4))] = 0
+        data.append(tail)
+        sheets.append(dict(tail))
+        titles.append('Tail')
+        r.count('books_with_zero_rows_at_the_bottom')
+        for _ in range(6):
+            own = rng.randrange(ns)
+            c1 = rng.randrange(1, 4)
+            c2 = rng.randrange(c1, 4)
+            ref = rng.choice([Ref(tsi_, None, c1, None, c2, whole=True), Ref(tsi_, h_, c1, h_ + nz, c2),
+                              Ref(tsi_, h_ + nz, c1, h_ + nz, c1, single=True), Ref(tsi_, 1, c1, h_ + nz + 1, c2)])
+            sp = spell(rng, ref, titles, own, r)
+            place(own, '=' + sp, kind='bare', ref=ref)
+            place(own, f'=COUNT({sp})', kind='COUNT', ref=ref)
+            place(own, f'=MIN({sp})', kind='MIN', ref=ref)
+            place(own, f'=COUNTBLANK({sp})', kind='COUNTBLANK', ref=ref)
+            if not ref.single:
+                place(own, None, kind='INDEX', ref=ref, sp=sp)
     # function positions (xlref-judged); near books only, areas inside the gap-free zone rows 1..4 x cols A..D
     if not far:
         for _ in range(14):
